@@ -29,6 +29,10 @@ def _safe_eq(x, y):
         return False
 
 
+def _names_of(target):
+    return {n.id for n in ast.walk(target) if isinstance(n, ast.Name)}
+
+
 def header_text(node):
     if isinstance(node, ast.For):
         return f"for {ast.unparse(node.target)} in {ast.unparse(node.iter)}"
@@ -118,6 +122,34 @@ def assigned_names(stmts):
     return names, fields, calls
 
 
+def rebound_names(stmts):
+    """Names that a statement list (re)binds — as opposed to names whose value is only mutated in place
+    (`x[k] = v`, `x.append(..)`), which `assigned_names` reports as well."""
+    out = set()
+
+    class V(ast.NodeVisitor):
+        def visit_Name(self, n):
+            if isinstance(n.ctx, (ast.Store, ast.Del)):
+                out.add(n.id)
+
+        def visit_FunctionDef(self, n):
+            out.add(n.name)
+
+        def visit_Lambda(self, n):
+            pass
+
+        def visit_ListComp(self, n):
+            for g in n.generators:
+                self.visit(g.iter)
+
+        visit_SetComp = visit_DictComp = visit_GeneratorExp = visit_ListComp
+
+    v = V()
+    for s_ in stmts:
+        v.visit(s_)
+    return out
+
+
 class StmtMixin:
     # ---- iteration protocol ---------------------------------------------------------------------------
     def iter_info(self, v: Val, st, node) -> IterInfo:
@@ -205,13 +237,17 @@ class StmtMixin:
         sub = st.copy()
         if info.kind == "concrete":
             rs = []
-            for it in info.items:
-                s2 = st.copy()
-                s2.pc = st.pc
-                self.bind_target(g.target, it, s2, gen)
-                conds = [self.cond(c, s2) for c in g.ifs]
-                body = self.cond(gen.elt, s2)
-                rs.append(z_implies(z_and(*conds), body) if which == "all" else z_and(*conds, body))
+            self.qnames.append(_names_of(g.target))
+            try:
+                for it in info.items:
+                    s2 = st.copy()
+                    s2.pc = st.pc
+                    self.bind_target(g.target, it, s2, gen)
+                    conds = [self.cond(c, s2) for c in g.ifs]
+                    body = self.cond(gen.elt, s2)
+                    rs.append(z_implies(z_and(*conds), body) if which == "all" else z_and(*conds, body))
+            finally:
+                self.qnames.pop()
             return bool_val(z_and(*rs) if which == "all" else z_or(*rs))
         dmeta = getattr(info, "dict_items", None)
         if dmeta is None and isinstance(src.ty, T.Dict) and not src.is_py:
@@ -245,6 +281,7 @@ class StmtMixin:
         self.bind_target(g.target, item, sub, gen)
         mark = len(sub.pc)
         self.qstack.append((vars_, guard))
+        self.qnames.append(_names_of(g.target))
         try:
             sub.pc.append(guard)
             conds = []
@@ -256,6 +293,7 @@ class StmtMixin:
             body = self.cond(gen.elt, sub)
         finally:
             self.qstack.pop()
+            self.qnames.pop()
         if which == "all":
             return bool_val(z3.ForAll(vars_, z3bool(z_implies(z_and(guard, *conds), body))))
         return bool_val(z3.Exists(vars_, z3bool(z_and(guard, *conds, body))))
@@ -272,16 +310,20 @@ class StmtMixin:
                 s2 = st.copy()
                 s2.pc = st.pc
                 self.bind_target(g.target, it, s2, node)
-                conds = [self.cond(c, s2) for c in g.ifs]
-                c = z_and(*conds)
-                if c is False:
-                    continue
-                if c is not True:
-                    raise Unsupported("symbolic filter over a concrete-length comprehension", node)
-                if kind == "dict":
-                    out.append((self.eval(node.key, s2), self.eval(node.value, s2)))
-                else:
-                    out.append(self.eval(node.elt, s2))
+                self.qnames.append(_names_of(g.target))
+                try:
+                    conds = [self.cond(c, s2) for c in g.ifs]
+                    c = z_and(*conds)
+                    if c is False:
+                        continue
+                    if c is not True:
+                        raise Unsupported("symbolic filter over a concrete-length comprehension", node)
+                    if kind == "dict":
+                        out.append((self.eval(node.key, s2), self.eval(node.value, s2)))
+                    else:
+                        out.append(self.eval(node.elt, s2))
+                finally:
+                    self.qnames.pop()
             if kind == "dict":
                 if not all(is_const(k) for k, _ in out):
                     raise Unsupported("dict comprehension with symbolic keys over concrete source", node)
@@ -315,18 +357,33 @@ class StmtMixin:
         else:
             # indexed source: element at a symbolic position; need the key itself as bound var
             meta = getattr(info, "dict_items", None)
+            if meta is None and isinstance(src.ty, T.Dict) and not src.is_py:
+                meta = (src.ty, lift(src), "keys")
             if meta is None:
-                raise Unsupported("set/dict comprehension over a sequence", node)
-            dt, dterm, mode = meta
-            x = fresh(dt.k, "ck")
-            d = dt.sort()
-            guard = z3.Select(d.dom(dterm), x)
-            kelem = dt.k
-            kv = Val(dt.k, x)
-            vv = Val(dt.v, z3.Select(d.map(dterm), x))
-            item = {"items": Val(PYOBJ, None, (kv, vv), True), "keys": kv, "values": vv}[mode]
+                probe = z3.Int(fresh_name("probe"))
+                if info.seqval is not None and isinstance(info.seqval.ty, T.List) and not info.facts(probe) and kind in ("set", "dict"):
+                    # a list source: the bound variable ranges over the ELEMENTS of the list
+                    from .core import seq_contains_elem
+
+                    et = info.seqval.ty.elem
+                    x = fresh(et, "cx")
+                    guard = seq_contains_elem(lift(info.seqval), x)
+                    item = Val(et, x)
+                    kelem = et
+                else:
+                    return self.indexed_array_comprehension(node, g, info, st, kind)
+            else:
+                dt, dterm, mode = meta
+                x = fresh(dt.k, "ck")
+                d = dt.sort()
+                guard = z3.Select(d.dom(dterm), x)
+                kelem = dt.k
+                kv = Val(dt.k, x)
+                vv = Val(dt.v, z3.Select(d.map(dterm), x))
+                item = {"items": Val(PYOBJ, None, (kv, vv), True), "keys": kv, "values": vv}[mode]
         self.bind_target(g.target, item, sub, node)
         self.qstack.append(([x], guard))
+        self.qnames.append(_names_of(g.target))
         try:
             sub.pc.append(guard)
             conds = [z3bool(self.cond(c, sub)) for c in g.ifs]
@@ -338,12 +395,16 @@ class StmtMixin:
                 ve = None
         finally:
             self.qstack.pop()
+            self.qnames.pop()
         if not (not ke.is_py and z3.eq(lift(ke), x)):
             if kind == "set" and ke.ty is not PYOBJ:
                 # {f(x) for x in S if c}: the image  λy. ∃x. x∈S ∧ c ∧ y == f(x)
                 y = fresh(ke.ty, "img")
                 img = z3.Lambda([y], z3.Exists([x], z3.And(guard, *conds, y == lift(ke))))
                 return Val(T.Set(ke.ty), img)
+            if kind == "dict" and info.kind != "set":
+                # a computed key: later entries overwrite earlier ones, so positions matter
+                return self.indexed_array_comprehension(node, g, info, st, kind)
             raise Unsupported("comprehension key/element must be the iteration variable itself", node)
         dom = z3.Lambda([x], z3.And(guard, *conds))
         # emptiness of the comprehension, stated explicitly (saves the solver an extensionality argument)
@@ -352,6 +413,7 @@ class StmtMixin:
             if kind != "set":
                 raise Unsupported("list comprehension over a set", node)
             return Val(T.Set(kelem), dom)
+        ve = self.comp_value(ve, node)
         vt = ve.ty
         rt = T.Dict(kelem, vt)
         mp = z3.Lambda([x], lift(ve))
@@ -360,12 +422,79 @@ class StmtMixin:
         st.assume(z3.ForAll([y], z3.Contains(ks, z3.Unit(y)) == z3.Select(dom, y)))
         return Val(rt, rt.sort().mk(dom, mp, ks))
 
+    def comp_value(self, ve, node):
+        """value expression of a dict comprehension as a data value (`[]` / `{}` typed by the declared type of
+        the local that receives the comprehension)."""
+        if ve.ty is not PYOBJ:
+            return ve
+        want = getattr(self, "_assign_want", None)
+        if isinstance(want, T.Dict):
+            return coerce(ve, want.v)
+        from . import models
+
+        try:
+            return models._item_val(ve)
+        except Unsupported:
+            raise Unsupported("dict comprehension value of unknown type (declare the receiving local in `locals=`)", node)
+
+    def indexed_array_comprehension(self, node, g, info, st, kind):
+        """Set / dict comprehension over a SEQUENCE of positions (a list, `d.items()`, zip, ..) with an arbitrary
+        element / key expression.  Set: the image of the passing positions.  Dict: domain = image of the key
+        expression; Python lets LATER entries overwrite earlier ones, so the value of key y is the value expression
+        at the LAST passing position whose key is y (a Skolem function `last`, defined by an assumed axiom that is
+        satisfiable for every finite sequence)."""
+        if info.kind != "indexed":
+            raise Unsupported("set/dict comprehension over this iterable", node)
+        sub = st.copy()
+        i = z3.Int(fresh_name("ci"))
+        guard = z3.And(i >= 0, i < info.n)
+        self.bind_target(g.target, info.item(i), sub, node)
+        self.qstack.append(([i], guard))
+        self.qnames.append(_names_of(g.target))
+        try:
+            sub.pc.append(guard)
+            for f in info.facts(i):
+                sub.pc.append(f)
+            conds = [z3bool(self.cond(c, sub)) for c in g.ifs]
+            for c in conds:
+                sub.pc.append(c)
+            if kind == "dict":
+                ke = self.eval(node.key, sub)
+                ve = self.comp_value(self.eval(node.value, sub), node)
+            else:
+                ke = self.eval(node.elt, sub)
+                ve = None
+        finally:
+            self.qstack.pop()
+            self.qnames.pop()
+        from . import models
+
+        ke = models._item_val(ke)
+        kt = ke.ty
+        y = fresh(kt, "img")
+        passing = z3.And(guard, *conds)
+        dom = z3.Lambda([y], z3.Exists([i], z3.And(passing, lift(ke) == y)))
+        st.assume((dom == z3.K(kt.sort(), z3.BoolVal(False))) == z3.Not(z3.Exists([i], passing)))
+        if kind == "set":
+            return Val(T.Set(kt), dom)
+        last = z3.Function(fresh_name("lastpos"), kt.sort(), z3.IntSort())
+        ly = last(y)
+        at_last = z3.substitute(z3.And(passing, lift(ke) == y), (i, ly))
+        st.assume(z3.ForAll([y], z3.Implies(z3.Select(dom, y), z3.And(at_last, z3.ForAll([i], z3.Implies(z3.And(passing, lift(ke) == y), i <= ly))))))
+        mp = z3.Lambda([y], z3.substitute(lift(ve), (i, ly)))
+        rt = T.Dict(kt, ve.ty)
+        ks = fresh(T.List(kt), "keys")
+        y2 = fresh(kt, "y")
+        st.assume(z3.ForAll([y2], z3.Contains(ks, z3.Unit(y2)) == z3.Select(dom, y2)))
+        return Val(rt, rt.sort().mk(dom, mp, ks))
+
     def seq_comprehension(self, node, g, info, st):
         sub = st.copy()
         i = z3.Int(fresh_name("ci"))
         guard = z3.And(i >= 0, i < info.n)
         self.bind_target(g.target, info.item(i), sub, node)
         self.qstack.append(([i], guard))
+        self.qnames.append(_names_of(g.target))
         try:
             sub.pc.append(guard)
             for f in info.facts(i):
@@ -376,6 +505,7 @@ class StmtMixin:
             body = self.eval(node.elt, sub)
         finally:
             self.qstack.pop()
+            self.qnames.pop()
         et = body.ty
         if et is PYOBJ and body.is_py and isinstance(body.py, tuple) and body.py:
             parts = [x if isinstance(x, Val) else Val.const(x) for x in body.py]
@@ -585,7 +715,15 @@ class StmtMixin:
         return [(st, Outcome("normal"))]
 
     def s_Assign(self, node, st):
-        v = self.eval(node.value, st)
+        want = None
+        if len(node.targets) == 1 and isinstance(node.targets[0], ast.Name) and self.c:
+            want = self.c.locals.get(node.targets[0].id)
+        save = getattr(self, "_assign_want", None)
+        self._assign_want = want
+        try:
+            v = self.eval(node.value, st)
+        finally:
+            self._assign_want = save
         for t in node.targets:
             self.assign_target(t, v, st, node)
         self.note_alias(node.value, node.targets, st)
